@@ -24,11 +24,9 @@ def feed6 (c P : UInt32) : UInt32 :=
 theorem xor_cancel_left (a b : UInt32) : a ^^^ (a ^^^ b) = b := by
   rw [← UInt32.xor_assoc]; simp
 
-/-- the heart of "create then verify": with `P = six c ^^^ K` the decoder ends in state `K` -/
-theorem feed_checksum (c K : UInt32) (hc : hi30 c) (hK : hi30 K) :
-    feed6 c (six c ^^^ K) = K := by
-  let P := six c ^^^ K
-  have hP : hi30 P := xor_hi (ps_hi _) hK
+/-- for EVERY 30-bit `P`: feeding the six 5-bit groups of `P` to the decoder's polymod from state `c`
+    ends in `six c ^^^ P` (GF(2)-linearity, step by step) -/
+theorem feed6_xor_six (c P : UInt32) (hc : hi30 c) (hP : hi30 P) : feed6 c P ^^^ six c = P := by
   have e1 := ps_hi c
   have e2 := ps_hi (polymodStep c)
   have e3 := ps_hi (polymodStep (polymodStep c))
@@ -52,19 +50,28 @@ theorem feed_checksum (c K : UInt32) (hc : hi30 c) (hK : hi30 K) :
   have s5 := delta_step _ _ P 1 (by omega) hd4 e4 hP s4
   have hd5 := xor_hi (ps_hi (polymodStep (polymodStep (polymodStep (polymodStep c ^^^ ((P >>> UInt32.ofNat (5 * 5)) &&& 31)) ^^^ ((P >>> UInt32.ofNat (5 * 4)) &&& 31)) ^^^ ((P >>> UInt32.ofNat (5 * 3)) &&& 31)) ^^^ ((P >>> UInt32.ofNat (5 * 2)) &&& 31))) (and31_hi (P >>> UInt32.ofNat (5 * 1)))
   have s6 := delta_step _ _ P 0 (by omega) hd5 e5 hP s5
-  -- s6 : feed6 c P ^^^ six c = P >>> 0 = P
   have hP0 : P >>> UInt32.ofNat (5 * 0) = P := by
     apply UInt32.toNat_inj.1
     rw [shr_toNat _ _ (by omega)]; simp
   rw [hP0] at s6
-  have : feed6 c P = (feed6 c P ^^^ six c) ^^^ six c := by
+  exact s6
+
+/-- the heart of "create then verify": with `P = six c ^^^ K` the decoder ends in state `K` -/
+theorem feed_checksum (c K : UInt32) (hc : hi30 c) (hK : hi30 K) :
+    feed6 c (six c ^^^ K) = K := by
+  have hP : hi30 (six c ^^^ K) := xor_hi (ps_hi _) hK
+  have s6 := feed6_xor_six c (six c ^^^ K) hc hP
+  have : feed6 c (six c ^^^ K) = (feed6 c (six c ^^^ K) ^^^ six c) ^^^ six c := by
     rw [UInt32.xor_assoc]; simp
-  show feed6 c P = K
-  rw [this]
-  have s6' : feed6 c P ^^^ six c = P := s6
-  rw [s6']
-  show (six c ^^^ K) ^^^ six c = K
-  rw [UInt32.xor_comm, xor_cancel_left]
+  rw [this, s6, UInt32.xor_comm, xor_cancel_left]
+
+/-- converse: if the decoder ends in `K` after the six groups of `P`, then `P` is the checksum the
+    encoder computes -/
+theorem checksum_unique (c K P : UInt32) (hc : hi30 c) (hP : hi30 P) (h : feed6 c P = K) :
+    P = six c ^^^ K := by
+  have s6 := feed6_xor_six c P hc hP
+  rw [h] at s6
+  rw [← s6, UInt32.xor_comm K]
 
 /- table facts over the generated charset / charset_rev ------------------------------------------- -/
 
